@@ -42,6 +42,12 @@ def date_line(rng, prop, chunk, c, part):
     """PROP:v1,v2,... in UTC form, or (sometimes) with a TZID of its own that differs from the event's"""
     if c["is_date"]:
         return prop + ";VALUE=DATE:" + ",".join(fmt(x) for x in chunk)
+    if rng.random() < 0.2:
+        # as dates, which take DTSTART's wall-clock time in DTSTART's zone: possible when every value has that time of day
+        loc = in_zone(chunk, c["tzid"]) if c["tzid"] else chunk
+        if loc is not None and all(x.time() == c["dtstart"].time() for x in loc):
+            part.count("date_valued_lines_in_timed_events")
+            return prop + ";VALUE=DATE:" + ",".join(x.strftime("%Y%m%d") for x in loc)
     if rng.random() < 0.3:
         zone = rng.choice([z for z in OTHER_ZONES if z != c["tzid"]])
         loc = in_zone(chunk, zone)
@@ -178,21 +184,32 @@ def run_case(srv, part, rng, tier):
     for i in range(0, len(exd), max(1, per)):
         chunk = exd[i:i + per]
         exlines.append(date_line(rng, "EXDATE", chunk, c, part))
-    # EXRULE
+    # EXRULE: one to three of them, each open, counted or bounded by an UNTIL that sits on or next to an occurrence
     X = []
-    xline = ""
-    if rng.random() < 0.35:
-        xr = simple_rule(rng, c["is_date"])
-        if rng.random() < 0.5:
-            xr["count"] = rng.choice([3, 10, 40])
-        xt = rfc5545.rule_text(xr)
-        xline = "EXRULE:" + xt
-        Xs, x_ended, _ = pop(srv, event(uid, c["dtline"], [c["durline"], "RRULE:" + xt]), 400)
-        if any(isinstance(x, tuple) for x in Xs):
-            return
-        if not x_ended and Xs and Xs[-1] < W:
-            W = Xs[-1]
-        X = Xs
+    xlines = []
+    if rng.random() < 0.4:
+        for _ in range(rng.choice([1, 1, 1, 2, 2, 3])):
+            xr = simple_rule(rng, c["is_date"])
+            t = rng.random()
+            if t < 0.35:
+                xr["count"] = rng.choice([3, 10, 40])
+            elif t < 0.7:
+                u = R[rng.randrange(len(R))]
+                if not c["is_date"]:
+                    u += D.timedelta(seconds=rng.choice([0, 0, 0, 1, -1]))
+                xr["until"] = u
+                part.count("exrules_with_until")
+            xt = rfc5545.rule_text(xr)
+            Xs, x_ended, _ = pop(srv, event(uid, c["dtline"], [c["durline"], "RRULE:" + xt]), 400)
+            if any(isinstance(x, tuple) for x in Xs):
+                return
+            if not x_ended and Xs and Xs[-1] < W:
+                W = Xs[-1]
+            X += Xs
+            xlines.append("EXRULE:" + xt)
+        if len(xlines) > 1:
+            part.count("events_with_several_exrules")
+    xline = " ".join(xlines)
     # RDATE
     rd = []
     rdlines = []
@@ -221,7 +238,7 @@ def run_case(srv, part, rng, tier):
                 rdlines.append(date_line(rng, "RDATE", chunk, c, part))
     if not exlines and not xline and not rdlines:
         return
-    body = [c["durline"], "RRULE:" + rule_text] + exlines + ([xline] if xline else []) + rdlines
+    body = [c["durline"], "RRULE:" + rule_text] + exlines + xlines + rdlines
     rng.shuffle(body)
     full = event(uid, c["dtline"], body)
     G, g_ended, _ = pop(srv, full, len(R) + len(rd) + 5)
@@ -240,7 +257,7 @@ def run_case(srv, part, rng, tier):
     sg, se = set(got), set(expected)
     nontriv = hits >= 1 and (misses >= 1 or xline or rdlines)
     sig = "%s/%s/%s%s%s/%s" % (c["rule"]["freq"], c["durcls"], "D%d" % min(len(exlines), 3) if exlines else "",
-                               "X" if xline else "", "R" if rdlines else "", "date" if c["is_date"] else ("tz" if c["tzid"] else "utc"))
+                               "X%d" % len(xlines) if xlines else "", "R" if rdlines else "", "date" if c["is_date"] else ("tz" if c["tzid"] else "utc"))
     if nontriv:
         part.nontrivial.add(sig)
     part.count("exceptions_hitting", hits)
